@@ -71,9 +71,9 @@ def _gotest(ctx, pkgdirs, *a, **kw):
 def run(ctx):
     rnd = random.Random(ctx.seed)
     # 1. the model satisfies the property (exhaustive, bounded)
-    for cfg in ctx.pick(["MC_N3"], ["MC_N3", "MC_N3first", "MC_N3none", "MC_N3intruder", "MC_N4", "MC_N4two"]):
+    for cfg in ctx.pick(["MC_N3"], ["MC_N3", "MC_N3none", "MC_N3intruder", "MC_N4", "MC_N4two"]):
         r = ctx.tlc(SPEC, "MC_TecdsaDkg", cfg=cfg, coverage=True, label=cfg, timeout=ctx.pick(900, 3000), workers=ctx.pick(4, 8))
-        ctx.require_coverage(r, [a for a in ACTIONS if not (cfg in ("MC_N4", "MC_N3intruder") and a == "DoDeliverDup")], cfg)
+        ctx.require_coverage(r, [a for a in ACTIONS if not ((cfg in ("MC_N4", "MC_N3intruder", "MC_N3none") and a == "DoDeliverDup") or (cfg == "MC_N3intruder" and a == "DoDeliverForged"))], cfg)
     if ctx.thorough:
         # liveness under fairness: every operating member completes whatever is injected
         ctx.tlc(SPEC, "MC_TecdsaDkg", cfg="MC_Live", label="MC_Live", timeout=1500)
@@ -89,9 +89,9 @@ def run(ctx):
     # 3. simulated behaviours of larger instances (invariants checked on every state) ...
     beh, probes = [], []
     plan = ctx.pick([("Gen_N3", 40), ("Gen_N4", 25)],
-                    [("Gen_N3", 300), ("Gen_N3first", 150), ("Gen_N4", 300), ("Gen_N4two", 150), ("Gen_N4none", 100), ("Gen_N5", 200)])
+                    [("Gen_N3", 200), ("Gen_N3first", 80), ("Gen_N4", 200), ("Gen_N4two", 80), ("Gen_N4none", 60), ("Gen_N5", 100)])
     for cfg, num in plan:
-        g = ctx.tlc(SPEC, "Gen_TecdsaDkg", cfg=cfg, mode="simulate", num=num, depth=400, workers=1, coverage=True, label=cfg,
+        g = ctx.tlc(SPEC, "Gen_TecdsaDkg", cfg=cfg, mode="simulate", num=num, depth=500, workers=1, coverage=True, label=cfg,
                     dump_trace=False, timeout=ctx.pick(900, 3000))
         got = ctx.read_emitted(g, "behaviours.ndjson")
         if len(got) < num // 2:
